@@ -25,10 +25,10 @@ func diskState(r *txgen.Replica, disk *simdb.Disk, h uint64) (*state.StateDB, er
 	return state.New(res.TrieRoot, state.NewKeyValueDBWithCache(disk.DB(simnode.DBState), 0, r.Spec.IsTrie, h))
 }
 
-// keyDestroyedStorage is the key of the finding "flat key/value mode keeps the
-// storage of a self-destructed contract; it is visible again as soon as an
-// account exists at the address". It shows in the slots txgen.ReadLife keeps
-// apart as "after destruction".
+// keyDestroyedStorage: storage of a self-destructed contract is visible again
+// at its address (repaired in /repo bcc989e: the flat key/value mode used to
+// keep the entries). It shows in the slots txgen.ReadLife keeps apart as
+// "after destruction". A violation like any other.
 const keyDestroyedStorage = "diverge/storage-mode/recreated-account-sees-destroyed-storage"
 
 // lifeDiffs lists the disagreements between the replica's disk at height h and the model.
@@ -108,6 +108,7 @@ func (w *world) lifeOracle(h uint64, insts []lifeInst, items []*txgen.Item) bool
 			first = v
 			if len(v.AfterDiffs) > 0 {
 				c.Violate("model", keyDestroyedStorage, "height %d, instance %s (%s mode), state read back from disk: %s", h, in.name, mode, v.AfterDiffs[0])
+				return false
 			}
 			continue
 		}
@@ -120,8 +121,8 @@ func (w *world) lifeOracle(h uint64, insts []lifeInst, items []*txgen.Item) bool
 			if len(v.AfterDiffs) > 0 {
 				d = v.AfterDiffs[0]
 			}
-			// known finding: continue (execution is not affected unless code is created at the address again)
 			c.Violate("diverge", keyDestroyedStorage, "height %d: storage of a self-destructed contract is visible again at its address on %s (%s mode) and not on %s: %s", h, in.name, mode, insts[0].name, d)
+			return false
 		}
 	}
 	return !c.Failed()
